@@ -60,21 +60,21 @@ theorem C05_listener_assigns_target (t : Node) : listenerTarget (nModelListener 
 theorem C05_component_default (o : Opts) (v : Node) (acc : AttrAcc) :
     (vmodelStep o true none none none v acc).props =
       acc.props ++ [nKV (nStr "modelValue") v, nKV (nStr "onUpdate:modelValue") (nModelListener v)] := by
-  simp [vmodelStep]
+  simp [vmodelStep, vmodelStepK, vmodelArgKind]
 
 /-- with modifiers: `modelModifiers` sits between them -/
 theorem C05_component_modifiers (o : Opts) (v m : Node) (acc : AttrAcc) :
     (vmodelStep o true none none (some m) v acc).props =
       acc.props ++ [nKV (nStr "modelValue") v, nKV (nStr "modelModifiers") m,
                     nKV (nStr "onUpdate:modelValue") (nModelListener v)] := by
-  simp [vmodelStep]
+  simp [vmodelStep, vmodelStepK, vmodelArgKind]
 
 /-- a static argument names the prop, its modifiers prop and its listener -/
 theorem C05_component_static_arg (o : Opts) (v m : Node) (arg : String) (as : List String) (ks : List Node) (acc : AttrAcc) :
     (vmodelStep o true (some (.mk .str (arg :: as) ks)) none (some m) v acc).props =
       acc.props ++ [nKV (nStr arg) v, nKV (nStr (arg ++ "Modifiers")) m,
                     nKV (nStr ("onUpdate:" ++ arg)) (nModelListener v)] := by
-  simp [vmodelStep]
+  simp [vmodelStep, vmodelStepK, vmodelArgKind]
 
 /-- on an element: the model directive binding is recorded with value, argument and modifiers,
     and the update listener is added to the props -/
@@ -82,7 +82,7 @@ theorem C05_element_binding (o : Opts) (v : Node) (targ mods : Option Node) (acc
     let r := vmodelStep o false none targ mods v acc
     r.directives = acc.directives ++ [("model", targ, mods, v)]
       ∧ r.props = acc.props ++ [nKV (nStr "onUpdate:modelValue") (nModelListener v)] := by
-  simp [vmodelStep]
+  simp [vmodelStep, vmodelStepK, vmodelArgKind]
 
 /-! ### v-models is the same-order sequence of the v-model attributes it lists -/
 
